@@ -58,7 +58,7 @@ func (b *exampleBuilder) buildExampleForObjectNode(node *internalSchema.ObjectNo
 
 	buf.WriteRune('{')
 	children := node.Children()
-	length := len(children)
+	written := 0
 	for i, childNode := range children {
 		ex, err := b.Build(childNode)
 		if err != nil {
@@ -74,13 +74,14 @@ func (b *exampleBuilder) buildExampleForObjectNode(node *internalSchema.ObjectNo
 			return nil, err
 		}
 
+		if written != 0 {
+			buf.WriteRune(',')
+		}
+		written++
 		buf.WriteRune('"')
 		buf.Write(k)
 		buf.WriteString(`":`)
 		buf.Write(ex)
-		if i+1 != length {
-			buf.WriteRune(',')
-		}
 	}
 	buf.WriteRune('}')
 	return buf.Bytes(), nil
@@ -113,8 +114,8 @@ func (b *exampleBuilder) buildExampleForArrayNode(node *internalSchema.ArrayNode
 
 	buf.WriteRune('[')
 	children := node.Children()
-	length := len(children)
-	for i, childNode := range children {
+	written := 0
+	for _, childNode := range children {
 		ex, err := b.Build(childNode)
 		if err != nil {
 			return nil, err
@@ -124,10 +125,11 @@ func (b *exampleBuilder) buildExampleForArrayNode(node *internalSchema.ArrayNode
 			continue
 		}
 
-		buf.Write(ex)
-		if i+1 != length {
+		if written != 0 {
 			buf.WriteRune(',')
 		}
+		written++
+		buf.Write(ex)
 	}
 	buf.WriteRune(']')
 	return buf.Bytes(), nil
